@@ -12,7 +12,7 @@ PROPERTY = 'C17'
 META = {
     'level': 'exploration',
     'technique': 'reference-model runtime monitor: render/parse of instants at every DST transition of every zone vs a zoneinfo/PEP-495 oracle; comparison and duration round-trip oracles',
-    'text': 'The real timestamp.render / timestamp(text) / comparison operators / duration format+parse are executed on instants placed at and around every '
+    'text': 'Instants one ulp and 0.4 us from every transition are rendered at precisions 0, 3, 6; precision 0 denotes floor(round(t, 6)). The real timestamp.render / timestamp(text) / comparison operators / duration format+parse are executed on instants placed at and around every '
             'offset transition of the zones of the tz database (found by scanning zoneinfo, not taken from cpppo), at precisions 0..6, rendered in UTC, with the '
             'full zone name, with the default abbreviation and with the numeric offset. The oracle decides from zoneinfo fold arithmetic whether the rendered wall '
             'time is ambiguous: unambiguous zone-name/UTC renderings must parse back to the rendered instant (rounded to the precision), ambiguous ones may be rejected '
